@@ -37,4 +37,4 @@ flatten_rules.__name__ = 'r16_flatten'
 
 
 def run(ctx):
-    engine.run_rules(ctx, [sd.r04_6, sd.r04_7, sd.r04_8, sd.r04_9, sd.r04_10, sd.r04_12, sd.r04_13, sd.r04_14, sd.r04_1, sd.r04_2, sd.r04_3, sd.r04_4, sd.r04_5, c11.r11_3, flatten_rules])
+    engine.run_rules(ctx, [sd.r04_6, sd.r04_7, sd.r04_8, sd.r04_9, sd.r04_10, sd.r04_12, sd.r04_13, sd.r04_14, sd.r04_15, sd.r04_1, sd.r04_2, sd.r04_3, sd.r04_4, sd.r04_5, c11.r11_3, flatten_rules])
